@@ -257,10 +257,16 @@ class Runner:
                     elif r[0] == "closed":
                         accepted, detail = False, "connection closed by the server"
                     else:
-                        acc.count("timeouts")
-                        acc.note(f"timeout in {op} of {' '.join(seq)}")
-                        await self.close(svc)
-                        return
+                        why = await wh.server_keeps_a_dead_connection(self.env, sid)
+                        if why:
+                            # decided logically, not by the clock: this request can never be answered
+                            accepted, detail = False, "never served: " + why
+                            await self.close(svc)
+                        else:
+                            acc.count("timeouts")
+                            acc.note(f"timeout in {op} of {' '.join(seq)}")
+                            await self.close(svc)
+                            return
                     await self.close(svc)
             except Exception as e:
                 accepted, detail = False, f"{type(e).__name__}: {e}"
